@@ -32,18 +32,24 @@ SCEN = {
               ('G_XBA', '{"A1"}', 'TgtG', 'OXBA', 'X,B,A1', 'A1=G'),
               ('G_BXA', '{"A1"}', 'TgtG', 'OBXA', 'B,X,A1', 'A1=G'),
               ('P_ABX', '{"A1"}', 'TgtP', 'OABX', 'A1,B,X', 'A1=P'),
-              ('GG_4a', '{"A1","A2"}', 'TgtGG', 'O4a', 'A2,A1,B,X', 'A1=G,A2=G')],
+              ('GG_4a', '{"A1","A2"}', 'TgtGG', 'O4a', 'A2,A1,B,X', 'A1=G,A2=G'),
+              ('R_G_ABX', '{"A1"}', 'TgtG', 'OABX', 'A1,B,X', 'A1=G'),            # R_ = C is bound under the parentless context G (register first, then copy)
+              ('R_G_XBA', '{"A1"}', 'TgtG', 'OXBA', 'X,B,A1', 'A1=G'),
+              ('R_G_BXA', '{"A1"}', 'TgtG', 'OBXA', 'B,X,A1', 'A1=G')],
     'thorough': [('GP_4a', '{"A1","A2"}', 'TgtGP', 'O4a', 'A2,A1,B,X', 'A1=G,A2=P'),
                  ('GP_4b', '{"A1","A2"}', 'TgtGP', 'O4b', 'B,A2,X,A1', 'A1=G,A2=P'),
                  ('P_BXA', '{"A1"}', 'TgtP', 'OBXA', 'B,X,A1', 'A1=P')],
 }
 
 
+ROOTCOPY = ['set-only']        # fact probed from the running code (set in run())
+
+
 def write_cfg(name, canc, tgt, order, fixpm, inv, hintsc=False):
     fn = os.path.join(SD, '_gen_%s%s.cfg' % (name, '_inv' if inv else ''))
     with open(fn, 'w') as f:
-        f.write('SPECIFICATION Spec\nCONSTANT Cancellers = %s\nCONSTANT Tgt <- %s\nCONSTANT Order <- %s\nCONSTANT FIXPM = %s\nCONSTANT HINTSC = %s\n'
-                % (canc, tgt, order, 'TRUE' if fixpm else 'FALSE', 'TRUE' if hintsc else 'FALSE'))
+        f.write('SPECIFICATION Spec\nCONSTANT Cancellers = %s\nCONSTANT Tgt <- %s\nCONSTANT Order <- %s\nCONSTANT FIXPM = %s\nCONSTANT HINTSC = %s\nCONSTANT BindTo = "%s"\nCONSTANT ROOTCOPY = "%s"\n'
+                % (canc, tgt, order, 'TRUE' if fixpm else 'FALSE', 'TRUE' if hintsc else 'FALSE', 'G' if name.startswith('R_') else 'P', ROOTCOPY[0]))
         if inv:
             f.write('INVARIANT Reaches\nINVARIANT NothingElse\nINVARIANT OneWinner\n')
     return os.path.basename(fn)
@@ -69,18 +75,18 @@ def run(res, tier, seed):
     if p.returncode != 0:
         raise vlib.HarnessFailure('probe failed: ' + p.stderr[-1000:])
     facts = json.loads([l for l in p.stdout.splitlines() if l.startswith('{')][-1])
-    fixpm = bool(facts['propagator_locks_pm']); hintsc = bool(facts['hint_store_seq_cst'])
+    fixpm = bool(facts['propagator_locks_pm']); hintsc = bool(facts['hint_store_seq_cst']); ROOTCOPY[0] = 'always' if facts.get('root_copy_always') else 'set-only'
     res.extra['facts_from_code'] = facts
     res.assumptions += ['sequentially consistent replay (TSO variant: see DESIGN 6.2)', 'mutex acquisitions are atomic steps (mutex correctness is C08)',
                         'context trees G<-{P,S}, C bound under P; 1-2 cancellers; all propagator walk orders listed']
-    mapl = ['c4 2', 'c4p %d' % (1 if fixpm else 0), 'c7 2', 'c8d 0', 'c11p %d' % (1 if fixpm else 0), 'cDone 0', 'b7 2', 'd1 0']
+    mapl = ['c4 2', 'c4p %d' % (1 if fixpm else 0), 'c7 2', 'c8d 0', 'c11p %d' % (1 if fixpm else 0), 'cDone 0', 'b7 2', 'r7 2', 'bx 0', 'd1 0']
     mapf = os.path.join(vlib.BUILD, 'c04.map'); os.makedirs(vlib.BUILD, exist_ok=True); open(mapf, 'w').write('\n'.join(mapl) + '\n')
     tiers = ['quick'] if tier == 'quick' else ['quick', 'thorough']
     drift = 0; ec = et = 0; model_viol = []
     for tr_ in tiers:
         for (name, canc, tgt, order, olist, tgts) in SCEN[tr_]:
             # design-level verdict of the model instantiated with the facts observed in the code
-            tso = name.startswith('T_'); module = 'MCCtxTSO' if tso else 'MCCtx'; hargs = ['tso'] if tso else []
+            tso = name.startswith('T_'); module = 'MCCtxTSO' if tso else 'MCCtx'; hargs = ['tso'] if tso else (['bindG'] if name.startswith('R_') else [])
             cfg_inv = write_cfg(name, canc, tgt, order, fixpm, True, hintsc)
             r = vlib.tlc(SD, module, cfg_inv, workers=4)
             res.add_tlc(r, '%s:%s(FIXPM=%s,HINTSC=%s)' % (module, name, fixpm, hintsc))
